@@ -10,7 +10,7 @@ import sys
 import tempfile
 
 VERIF = os.path.dirname(os.path.dirname(os.path.abspath(__file__)))
-STRIDE = {'C03': 61, 'C05': 37, 'C13': 41, 'C12': 11, 'C04': 9, 'C20': 1, 'C10': 3}
+STRIDE = {'C03': 61, 'C05': 37, 'C13': 41, 'C12': 11, 'C04': 9, 'C20': 2, 'C10': 3}
 PROPS = ['C03', 'C04', 'C05', 'C06', 'C07', 'C08', 'C09', 'C10', 'C11', 'C12', 'C13', 'C14', 'C15',
          'C16', 'C17', 'C19', 'C20']
 
